@@ -527,7 +527,7 @@ def _k7_job(job):
     cands = [k for k in P.items if k[0] == 'ironplc-dsl' and re.fullmatch(r'time::<impl at [^>]*>::%s' % unit, k[1])]
     if len(cands) != 1: part.inconc('DurationLiteral::%s: %d candidates' % (unit, len(cands))); return part
     key = cands[0]
-    M = Machine(P, max_steps=5_000_000); st = {}
+    M = Machine(P, max_steps=5_000_000, arith=True); st = {}          # path feasibility by the integer-blasting solver: the path conditions are overflow checks of multiplications by constants
     def entry(M):
         # narrow variables, zero-extended: the solver sees the constant-zero high bits, which keeps multiply / divide by constants cheap to bit-blast
         w10 = M.fresh_bv('whole', 10); M.assume(z3.ULT(w10, 1000)); whole = z3.ZeroExt(54, w10)
@@ -594,9 +594,10 @@ def k7(ctx, kr):
     global _CTX
     _CTX = ctx
     fr = (1, 3) if ctx.tier == 'quick' else (1, 2, 3, 6)
-    kr.bounds = ('DurationLiteral::{days, hours, minutes, seconds, milliseconds} on every FixedPoint with whole part < 1000 and a fraction of %s decimal digits (all digits symbolic): '
+    kr.bounds = ('DurationLiteral::{days, hours, minutes, seconds, milliseconds} on every FixedPoint with whole part < 1000 and a fraction of %s decimal digits, and of 10 digits for days / hours / minutes (all digits symbolic): '
                  'the interval is exactly (whole + fraction) x unit in nanoseconds' % (list(fr),))
-    for part in par_map(_k7_job, [(u, n) for u in UNIT_SECONDS for n in fr]): merge_part(kr, part)
+    # ten fraction digits for the units whose nanosecond value is still integral then (a day is 8640 ns per 10^-10, an hour 360, a minute 6)
+    for part in par_map(_k7_job, [(u, n) for u in UNIT_SECONDS for n in fr] + [(u, 10) for u in ('days', 'hours', 'minutes')]): merge_part(kr, part)
     P = ctx.program(['ironplc-dsl'])
     kr.functions = fn_paths(P, getattr(kr, '_enc', set()))
     kr.exhaustive = True
@@ -701,4 +702,127 @@ def k8(ctx, kr):
     kr.exhaustive = True
     kr.outside = ['components of more than three digits (range of u32: C04-K4); lower-case prefixes']
 
-KERNELS = [k3a, k2, k3b, k4, k5, k6, k7, k8]
+# ---------------------------------------------------------------------------------------------- K9 a table of literal spellings and the value IEC 61131-3 assigns them
+def _ns(d=0, h=0, m=0, s=0, ms=0): return ((((d * 24 + h) * 60 + m) * 60 + s) * 1000 + ms) * 10 ** 6
+LITERAL_TABLE = [
+    # (declared type, spelling, expected): ('real', value) | ('bits', value) | ('bool', value) | ('dur', nanoseconds) | ('date', (y, m, d)) | ('tod', (h, m, s)) | ('dt', (y, mo, d, h, mi, s)) | ('int', magnitude, negative) | ('reject',)
+    ('REAL', '1.0', ('real', 1.0)), ('REAL', '0.25', ('real', 0.25)), ('REAL', '1.0E1', ('real', 10.0)), ('REAL', '1.0e1', ('real', 10.0)), ('REAL', '1.0E+1', ('real', 10.0)), ('REAL', '2.5E-1', ('real', 0.25)), ('REAL', '1_0.5', ('real', 10.5)),
+    ('REAL', '-1.5', ('real', -1.5)), ('REAL', '+1.5', ('real', 1.5)), ('REAL', '1.5E10', ('real', 1.5e10)), ('REAL', 'REAL#1.5', ('real', 1.5)), ('LREAL', 'LREAL#-2.5', ('real', -2.5)), ('REAL', '1.0E2', ('real', 100.0)),
+    ('BYTE', 'BYTE#16#FF', ('bits', 255)), ('WORD', 'WORD#2#1010', ('bits', 10)), ('BYTE', 'BYTE#255', ('bits', 255)), ('DWORD', 'DWORD#8#17', ('bits', 15)), ('LWORD', 'LWORD#16#FFFF_FFFF', ('bits', 4294967295)),
+    ('BOOL', 'BOOL#1', ('bool', True)), ('BOOL', 'BOOL#0', ('bool', False)), ('BOOL', 'BOOL#TRUE', ('bool', True)), ('BOOL', 'BOOL#FALSE', ('bool', False)), ('BOOL', 'TRUE', ('bool', True)), ('BOOL', 'FALSE', ('bool', False)),
+    ('TIME', 'T#-1s', ('dur', -_ns(s=1))), ('TIME', 't#5ms', ('dur', _ns(ms=5))), ('TIME', 'T#1.5h', ('dur', _ns(m=90))), ('TIME', 'T#25h', ('dur', _ns(h=25))), ('TIME', 'T#90m', ('dur', _ns(m=90))), ('TIME', 'TIME#2d', ('dur', _ns(d=2))), ('TIME', 'T#-1.5s', ('dur', -_ns(ms=1500))),
+    ('TIME', 'T#1h2m3s4ms', ('dur', _ns(h=1, m=2, s=3, ms=4))), ('TIME', 'T#1d2h', ('dur', _ns(d=1, h=2))), ('TIME', 'TIME#1m30s', ('dur', _ns(m=1, s=30))), ('TIME', 'T#1h_30m', ('dur', _ns(h=1, m=30))),
+    ('DATE', 'D#2020-02-29', ('date', (2020, 2, 29))), ('DATE', 'D#2021-02-29', ('reject',)), ('DATE', 'D#2020-13-01', ('reject',)), ('DATE', 'D#2020-04-31', ('reject',)), ('DATE', 'DATE#1999-12-31', ('date', (1999, 12, 31))),
+    ('DATE', 'D#2000-02-29', ('date', (2000, 2, 29))), ('DATE', 'D#1900-02-29', ('reject',)), ('DATE', 'D#2020-00-10', ('reject',)), ('DATE', 'D#2020-01-00', ('reject',)),
+    ('TOD', 'TOD#23:59:59', ('tod', (23, 59, 59))), ('TOD', 'TOD#24:00:00', ('reject',)), ('TOD', 'TOD#00:60:00', ('reject',)), ('TOD', 'TOD#00:00:60', ('reject',)), ('TOD', 'TIME_OF_DAY#12:00:00', ('tod', (12, 0, 0))),
+    ('DT', 'DT#2020-02-29-23:59:59', ('dt', (2020, 2, 29, 23, 59, 59))), ('DT', 'DATE_AND_TIME#2021-12-31-00:00:00', ('dt', (2021, 12, 31, 0, 0, 0))), ('DT', 'DT#2021-02-29-00:00:00', ('reject',)), ('DT', 'DT#2021-01-01-24:00:00', ('reject',)),
+    ('INT', '1_000', ('int', 1000, False)), ('INT', '0010', ('int', 10, False)), ('INT', 'INT#-5', ('int', 5, True)), ('DINT', 'DINT#16#10', ('int', 16, False)), ('INT', '+7', ('int', 7, False)),
+    ('LINT', '170141183460469231731687303715884105727', ('int', 170141183460469231731687303715884105727, False)), ('LINT', '340282366920938463463374607431768211455', ('int', 340282366920938463463374607431768211455, False)),
+    ('LINT', '340282366920938463463374607431768211456', ('reject',)), ('INT', '16#1_F', ('int', 31, False)), ('INT', '2#1111_0000', ('int', 240, False)),
+]
+
+def _k9_job(job):
+    idxs = job
+    from . import C10 as K10
+    ctx = _CTX; part = Part()
+    P = ctx.program()
+    k_parse = P.find_fn('ironplc-parser', 'parse_program')
+    k_opt = [k for k in P.items if k[0] == 'ironplc-parser' and re.search(r'ParseOptions as (std::default::)?Default>::default|options::<impl at [^>]*>::default', k[1])]
+    st = {}
+    M = Machine(P, stubs=K10.dyn_lexer_stubs(ctx, {}), max_steps=400_000_000)
+    def entry(M):
+        v = M.fresh_bv('entry', 16); M.declare_domain(v, list(idxs))
+        i = idxs[-1]
+        for val in idxs[:-1]:
+            if M.branch(v == val): i = val; break
+        st['i'] = i
+        ty, lit, exp = LITERAL_TABLE[i]
+        text = 'PROGRAM p\nVAR\n  x : %s := %s;\nEND_VAR\nEND_PROGRAM\n' % (ty, lit); st['src'] = text
+        fid = Ref(Cell(Agg('FileId', [Str('f.st')])))
+        opts = Ref(Cell(M.call_fn(k_opt[0], []) if k_opt else Agg('ParseOptions', [False])))
+        r = M.call_fn(k_parse, [Ref(Cell(Str(text))), fid, opts])
+        if r.disc != 0: return ('rejected',)
+        lib = r.f[0]
+        def one(name):
+            ns = K10.find_nodes(lib, name); return ns[0] if ns else None
+        kind = exp[0]
+        if kind == 'real':
+            n = one('RealLiteral')
+            if n is None: return ('other',)
+            v = n.f[0]
+            if isinstance(v, Opaque) and isinstance(v.tag, tuple) and v.tag[0] == 'float': v = v.tag[1]
+            return ('real', v)
+        if kind == 'bits':
+            n = one('BitStringLiteral'); return ('bits', simp(n.f[0].f[1])) if n is not None else ('other',)
+        if kind == 'bool':
+            n = one('BooleanLiteral'); return ('bool', simp(n.f[0].disc) == P.enums['Boolean'].index('True')) if n is not None else ('other',)
+        if kind == 'dur':
+            n = one('DurationLiteral'); return ('dur', simp(n.f[1].f[0])) if n is not None else ('other',)
+        if kind == 'date':
+            n = one('DateLiteral'); return ('date', tuple(simp(x) for x in n.f[0].f[:3])) if n is not None else ('other',)
+        if kind == 'tod':
+            n = one('TimeOfDayLiteral'); return ('tod', tuple(simp(x) for x in n.f[0].f[:3])) if n is not None else ('other',)
+        if kind == 'dt':
+            n = one('DateAndTimeLiteral'); return ('dt', tuple(simp(x) for x in list(n.f[0].f[0].f[:3]) + list(n.f[0].f[1].f[:3]))) if n is not None else ('other',)
+        if kind == 'int':
+            n = one('SignedInteger'); return ('int', simp(n.f[0].f[1]), bool(simp(n.f[1]))) if n is not None else ('other',)
+        return ('accepted',)
+    def on_path(M, pr):
+        part.paths += 1
+        i = st.get('i'); ty, lit, exp = LITERAL_TABLE[i]; src = st.get('src')
+        if pr.inconclusive: part.inconc('%s: %s' % (lit, pr.inconclusive)); return
+        part.nontrivial += 1
+        role = re.sub(r'[^A-Za-z0-9#.+_-]+', '_', lit)
+        rep = ('literal_table', (i,))
+        if pr.panic: part.add('C09/K9/%s/panic' % role, 'literal %s: the parser panics: %s' % (lit, pr.panic.msg[:50]), {'source': src}, rep); return
+        got = pr.result
+        if exp[0] == 'reject':
+            if got[0] != 'rejected': part.add('C09/K9/%s/accepted' % role, 'literal %s has no value (a field is out of range) but is accepted as %s' % (lit, got,), {'source': src}, rep)
+        elif got[0] == 'rejected': part.add('C09/K9/%s/rejected' % role, 'literal %s denotes %s but is rejected' % (lit, exp[1:]), {'source': src}, rep)
+        elif tuple(got) != tuple(exp): part.add('C09/K9/%s/value' % role, 'literal %s denotes %s but is read as %s' % (lit, exp, got), {'source': src}, rep)
+        elif len(part.validate) < 1: part.validate.append(rep)
+        if len(part.samples) < 1: part.samples.append({'literal': lit, 'read_as': str(got)})
+    M.explore(entry, on_path)
+    part.queries += M.stats['smt']; part.encoded = set(M.encoded); part.models = set(M.models_used)
+    return part
+
+@replay_factory('literal_table')
+def _replay_literal_table(i):
+    def rp(ctx):
+        ty, lit, exp = LITERAL_TABLE[i]
+        src = 'PROGRAM p\nVAR\n  x : %s := %s;\nEND_VAR\nEND_PROGRAM\n' % (ty, lit)
+        r = ctx.replay({'cmd': 'parse', 'source': src})
+        if 'panic' in r: return True, r
+        if not r.get('ok'): return exp[0] != 'reject', {'literal': lit, 'result': 'rejected', 'expected': str(exp)}
+        if exp[0] == 'reject': return True, {'literal': lit, 'result': 'accepted', 'expected': 'rejected'}
+        d = r['debug']; got = None
+        m = {'real': r'RealLiteral \{ value: ([-0-9.e+]+)', 'bits': r'BitStringLiteral \{ value: Integer \{ span: [^}]*\}, value: (\d+)', 'bool': r'BooleanLiteral \{ value: (True|False)',
+             'dur': r'interval: Duration \{ seconds: (-?\d+), nanoseconds: (-?\d+)', 'date': r'DateLiteral \{ value: (-?\d+)-(\d+)-(\d+)', 'tod': r'TimeOfDayLiteral \{ value: (\d+):(\d+):(\d+)',
+             'dt': r'DateAndTimeLiteral \{ value: (-?\d+)-(\d+)-(\d+) (\d+):(\d+):(\d+)', 'int': r'SignedInteger \{ value: Integer \{ span: [^}]*\}, value: (\d+) \}, is_neg: (true|false)'}[exp[0]]
+        mm = re.search(m, d)
+        if not mm: return True, {'literal': lit, 'result': 'no %s literal in the library' % exp[0]}
+        if exp[0] == 'real': got = ('real', float(mm.group(1)))
+        elif exp[0] == 'bits': got = ('bits', int(mm.group(1)))
+        elif exp[0] == 'bool': got = ('bool', mm.group(1) == 'True')
+        elif exp[0] == 'dur': got = ('dur', int(mm.group(1)) * 10 ** 9 + int(mm.group(2)))
+        elif exp[0] == 'int': got = ('int', int(mm.group(1)), mm.group(2) == 'true')
+        else: got = (exp[0], tuple(int(x) for x in mm.groups()))
+        return tuple(got) != tuple(exp), {'literal': lit, 'read_as': str(got), 'expected': str(exp)}
+    return rp
+
+@kernel('K9 parser.literal_value_table')
+def k9(ctx, kr):
+    global _CTX
+    _CTX = ctx
+    n = len(LITERAL_TABLE)
+    kr.bounds = ('%d literal spellings (reals with exponents and signs, typed bit strings, booleans, durations with one and several units, dates incl. leap years and out-of-range fields, times of day, date-and-times, integers with underscores, '
+                 'leading zeros, type prefixes and the u128 limit), the table entry a symbolic selector: parse_program on the MIR reads each as the value IEC 61131-3 assigns it, or rejects it when it has none' % n)
+    chunks = [list(range(n))[i::14] for i in range(14)]
+    for part in par_map(_k9_job, [c for c in chunks if c]): merge_part(kr, part)
+    P = ctx.program()
+    kr.functions = fn_paths(P, getattr(kr, '_enc', set()))[:120]
+    kr.stubs = ['f64::from_str evaluated natively on concrete text (floating point is not encoded symbolically)']
+    kr.exhaustive = True
+    kr.outside = ['spellings not in the table (symbolic digit strings: K2-K8)']
+
+KERNELS = [k3a, k2, k3b, k4, k5, k6, k7, k8, k9]
